@@ -394,6 +394,11 @@ func (hr *histRun) handshaker(who int, addr string, wg *sync.WaitGroup) {
 	if who%2 == 1 {
 		cfg.MaxVersion = tls.VersionTLS12
 	}
+	if who >= 2 {
+		// a client that connects by address: no server_name extension in its ClientHello
+		// (crypto/tls consults GetCertificate differently for such handshakes)
+		cfg.ServerName = ""
+	}
 	var one [1]byte
 	for !hr.stop.Load() {
 		rec := hsRec{Who: who}
